@@ -11,8 +11,7 @@
    data calls) makes the same step and returns the prescribed item; (6) seek to an unknown offset.
    What the sequence theorem C09_reader_refines composes is one flavour per operation; the per-call
    theorems (5) give every other flavour the same pre- and post-state, so any mix composes the same
-   way.  Not proved: a seek-by-skipping that meets an item that does not parse (only: it fails and
-   exhausts the reader, C09_error_latches). *)
+   way. *)
 From RsdnsModel Require Import Base Cursor Names Labels Header Tracker RData Reader.
 From RsdnsModel.Spec Require Import WireName LinearPass RDataWire.
 From RsdnsModel.Proofs Require Import Latch ReaderTotal LatchFull TrackerRefine SpecExec ParseSpec ReaderRefine MessageRT.
@@ -267,6 +266,18 @@ Theorem C09_seek_by_skipping : forall msg nq an ns ar qs rs e1 e2, parsed msg nq
   exists r', rd_seek msg s r = (r', Ok OUnit) /\
              RState msg nq an ns ar qs rs e2 r' (nq + sec_start (lin nq an ns ar) s) (N.max hw (nq + sec_start (lin nq an ns ar) s)).
 Proof. exact seek_skip_any. Qed.
+
+(* ... and if, on the way, it meets the first item that does not parse completely (the stop facts of
+   C09_linear_pass_parses: no question at e2, or at e2 no record header / one whose data leaves the
+   message), the seek fails and the reader is exhausted *)
+Theorem C09_seek_by_skipping_fails : forall msg nq an ns ar qs rs e1 e2, parsed msg nq an ns ar qs rs e1 e2 ->
+  forall r hw s, RState msg nq an ns ar qs rs e2 r 0 hw -> s < 3 ->
+  known (lin nq an ns ar) (mkA 0 hw false None) s = false ->
+  (lenN qs < nq -> question_at msg e2 = None) ->
+  (lenN qs = nq -> match record_at msg e2 with Some it => a_data_ok it = false | None => True end) ->
+  lenN qs < nq \/ (lenN qs = nq /\ lenN rs < sec_start (lin nq an ns ar) s) ->
+  exists r' e, rd_seek msg s r = (r', Err e) /\ r_done r' = true.
+Proof. exact seek_skip_fails_any. Qed.
 
 Theorem C09_seek_refused : forall msg nq an ns ar qs rs e1 e2, parsed msg nq an ns ar qs rs e1 e2 ->
   forall r idx hw s, RState msg nq an ns ar qs rs e2 r idx hw -> s < 3 ->
